@@ -14,6 +14,9 @@ func init() {
 	vHarnesses["H_C19_cursor2"] = H_C19_cursor2
 	vHarnesses["H_C19_cursor3"] = H_C19_cursor3
 	vHarnesses["H_C19_out"] = H_C19_out
+	vHarnesses["H_C06_ops"] = H_C06_ops
+	vHarnesses["H_C06_atoms"] = H_C06_atoms
+	vHarnesses["H_C06_numbers"] = H_C06_numbers
 	vHarnesses["H_C20_load"] = H_C20_load
 	vHarnesses["H_C17_dcg"] = H_C17_dcg
 	vHarnesses["H_C16_rel"] = H_C16_rel
@@ -152,4 +155,22 @@ func H_C19_cursor3(inst int) {
 func H_C19_out(inst int) {
 	i := newFull()
 	engine.VH_C19_out(&i.VM, inst)
+}
+
+// H_C06_ops: term `inst` written under a symbolic user operator table reads back as the same term.
+func H_C06_ops(inst int) {
+	i := newFull()
+	engine.VH_C06_ops(&i.VM, inst)
+}
+
+// H_C06_atoms: atoms of every lexical class in every context.
+func H_C06_atoms(inst int) {
+	i := newFull()
+	engine.VH_C06_atoms(&i.VM, inst)
+}
+
+// H_C06_numbers: boundary numbers in operator contexts; number_chars/number_codes round trip.
+func H_C06_numbers(inst int) {
+	i := newFull()
+	engine.VH_C06_numbers(&i.VM, inst)
 }
